@@ -280,6 +280,11 @@ func (r *runner) judge(v verdict) (violation string, knownKey string) {
 		return "HARNESS PROBLEM (not a finding): " + v.rep.Harness, ""
 	}
 	for _, p := range violatingPaths(&v.rep) {
+		if p.r.Abort != "" {
+			return "the request passed its resource bound and was stopped by the worker's probe (the node itself would have gone on): " + p.r.Abort, ""
+		}
+	}
+	for _, p := range violatingPaths(&v.rep) {
 		if p.r.Panic == "" {
 			continue
 		}
@@ -310,12 +315,13 @@ type namedPath struct {
 func violatingPaths(rep *wreply) []namedPath {
 	return []namedPath{{"block execution (ExecuteBlock)", &rep.Block}, {"pre-execution (PreExecuteContract)", &rep.Pre},
 		{"native call (NativeService.NativeCall)", &rep.Sandbox}, {"tx pool intake (AppendTransaction)", &rep.Pool},
-		{"transaction decoding / stateless validation (TransactionFromRawBytes, VerifyTransaction)", &rep.Valid}}
+		{"transaction decoding / stateless validation (TransactionFromRawBytes, VerifyTransaction)", &rep.Valid},
+		{"pre-execution with a finite gas budget (SmartContract built as PreExecuteContract builds it)", &rep.PreSB}}
 }
 
 func reachedAll(rep *wreply) []string {
 	m := map[string]bool{}
-	for _, p := range []*pathRes{&rep.Block, &rep.Pre, &rep.Sandbox, &rep.EthCall, &rep.Pool, &rep.Valid} {
+	for _, p := range []*pathRes{&rep.Block, &rep.Pre, &rep.Sandbox, &rep.EthCall, &rep.Pool, &rep.Valid, &rep.PreSB} {
 		for _, s := range p.Reached {
 			if s != "nat:param.getGlobalParam" || p == &rep.Sandbox {
 				m[s] = true
@@ -565,9 +571,11 @@ const ruleText = "cases are executed in a crash-isolating worker that owns a sol
 	"(a) NeoVM programs from a grammar (typed and mistyped SYSCALLs of every service name, value builders incl. nested/deep/self-referential containers with the back edge at a generated position, consumers Serialize/Notify/Native.Invoke/EQUAL/..., APPCALL/DCALL/CALL, bounded loops and jumps, framed opcode soup, raw and mutated bytes) run as a signed transaction through ExecuteBlock AND through PreExecuteContract; " +
 	"(b) a generated VALID history of native calls (ONT IDs with keys/controllers/recovery/attributes, approvals, auth roles, governance candidates) applied in a sandbox CacheDB and, as signed NeoVM transactions of one block, through ExecuteBlock, followed by ONE hostile call (contract and method from the method tables enumerated at run time; arguments shaped/mutated/generic atoms/raw bytes; every count, index and amount from a hostile pool 0,1,len-1,len,len+1,2^31,2^32-1,2^32,2^63,2^64-1,2^64,-1); " +
 	"(c) EVM bytecode as creation code, as installed runtime code called in the same block, or calldata to precompiles/native addresses/prefix contracts, through ExecuteBlock, PreExecuteContract(EIP-155 tx) and PreExecuteEip155Tx; (d) transactions offered to the tx pool intake; " +
-	"(e) NeoVM amplification loops: a leaf container (struct/array/map with 0,1,2,3,16,255,1023 or 1024 primitive items) and 1..48 rounds (uniform; unrolled or as a backward JMP loop) that each build a new node (struct/array/map with 0..1024 primitive filler slots) holding 1-4 copies of / references to the previous value in its first, middle or last slots by APPEND, SETITEM, PACK or by appending a struct to itself, older values dropped or kept on the stack, optionally 1..32 further APPENDs of the result to a fresh array, the final value returned / dropped / serialized / notified - run first on a bare executor driven exactly like NeoVmService.Invoke that counts the live VM items (stack slots + distinct containers + their slots) after every container-allocating opcode, then through ExecuteBlock and PreExecuteContract with the same counter probing the node's own executor on entry to every service call (it must agree with the meter). " +
+	"(e) NeoVM amplification loops: a leaf container (struct/array/map with 0,1,2,3,16,255,1023 or 1024 primitive items) and 1..48 rounds (uniform; unrolled or as a backward JMP loop) that each build a new node (struct/array/map with 0..1024 primitive filler slots) holding 1-4 copies of / references to the previous value in its first, middle or last slots by APPEND, SETITEM, PACK or by appending a struct to itself, older values dropped or kept on the stack, optionally 1..32 further APPENDs of the result to a fresh array, the final value returned / dropped / serialized / notified - run first on a bare executor driven exactly like NeoVmService.Invoke that counts the live VM items (stack slots + distinct containers + their slots) after every container-allocating opcode, then through ExecuteBlock and PreExecuteContract with the same counter probing the node's own executor on entry to every service call (it must agree with the meter); " +
+	"(f) cross-contract loops: an endless (L: body; JMP L) or counted (1..150000 iterations) loop whose body is 1-3 of: static or dynamic (address from the stack) APPCALL into the contracts committed in the worker's ledger prefix - echo (NOP), time (one service call), chain (APPCALLs time), loop (16 service calls in its own bounded loop), recur (calls itself until the engine limit), a missing contract - a service call in the caller, a NOP (TAILCALL is not implemented by this executor; DCALL stays inside one contract); run as a transaction through ExecuteBlock (gas limit 20000..500000) and as a pre-execution request. " +
 	"Violation = worker death by a fatal runtime error (a stack overflow under the worker's 64 MiB limit must reproduce under the node's 1 GB default, except in BuildParamToNative whose recursion is unbounded) or a Go panic on the block / PreExecuteContract / native-call / pool route (no layer of the node recovers there); answers later than 40 s are only counted. " +
 	"For (e) additionally: live items above 65536 + 1024 x executed opcodes (every opcode is charged >= 1 gas; MAX_ARRAY_SIZE=1024 items per NEWARRAY/NEWSTRUCT/PACK and MAX_CLONE_LENGTH=1024 items per struct copy are meant to cap what one opcode allocates; the largest count seen is recorded as amp_max_live_items) mean memory that multiplies per round / per opcode for constant gas, i.e. memory exhaustion of the node a few rounds later - a violation decided by these deterministic counters (the metered run stops there and the node routes are not entered); a worker killed by its address-space limit is a death; a mere wall-clock timeout stays inconclusive. " +
+	"For (f): a probe in every service handler counts the service calls of ALL nested engines of one request (each is one executed opcode that costs >= 2 gas and, in pre-execution, one step of the request's SmartContract.CheckExecStep counter, VM_STEP_LIMIT = 400000 shared by all engines of the request). Violations, all decided by counters, never by the clock: a transaction that enters more service calls than its gas limit; a PreExecuteContract request that enters more than VM_STEP_LIMIT + 1024 service calls (the probe then stops it by unwinding the request) or whose step counter reads less than the service calls already entered (an executed opcode was not counted); for bodies without any service call the request is pre-executed on a SmartContract built exactly as PreExecuteContractWithParam builds it (PreExec = true, same config, store, gas table) except for a finite gas budget of 6,000,000 (> 400000 steps x 10 gas of the dearest opcode used): it must not end with 'insufficient gas'; an endless loop over existing, returning callees must end its pre-execution with the step-limit error and its transaction unsuccessfully. Non-trivial (f) = at least one call into a deployed contract per iteration and the block route ran. " +
 	"Known finding clone-count-checked-only-on-struct-entry: its witness (64-level chain of 1024-wide structs nested through slot 0, appended 24 times; 612 opcodes) is replayed through ExecuteBlock and PreExecuteContract with a 20000 gas limit and judged by the probe's count on the node's executor against the same bound; while it is listed and reproduces, an over-bound outcome of exactly the shape it explains (deep-copied struct node with more than 3 filler slots whose nested struct is not in the last slot) is counted as excluded - arrays, maps, narrow structs, nested-last structs and container-only trees over the bound stay violations. " +
 	"Non-trivial (e) = the metered run executed at least one full round and built a container value (live items >= 3); distinct = different code. " +
 	"Non-trivial (other kinds) = the case entered at least one syscall or native handler (measured by counters wrapped around every registered handler) or executed EVM code (gas used above the intrinsic gas); distinct = different case bytes."
@@ -772,6 +780,96 @@ func TestC12_Amplify(t *testing.T) {
 		}
 		if viol != "" {
 			t.Fatalf("C12 violated by NeoVM amplification program %x (shape %+v, gas limit %d): %s", code, sp, c.GasLimit, viol)
+		}
+	})
+}
+
+// TestC12_CrossContractLoops: kind (f). The "infinite loop" clause of the property for loops whose body is a
+// call into another deployed contract: every nested engine must count against the ONE gas budget of the
+// transaction and the ONE step budget (VM_STEP_LIMIT) of the pre-execution request.
+func TestC12_CrossContractLoops(t *testing.T) {
+	r := newRunner(t)
+	defer r.close()
+	ev := r.ev
+	ev.Rule(ruleText)
+	ev.Floor("xloop:forever:with-call", "xloop:cases", 0.25)
+	ev.Floor("xloop:pre:real-route:step-limit", "xloop:cases", 0.08)
+	ev.Floor("xloop:pre:finite-gas:step-limit", "xloop:cases", 0.05)
+	ev.Floor("xloop:block:out-of-gas", "xloop:cases", 0.25)
+	maxCalls := 0
+	defer func() { ev.Extra("xloop_max_service_calls_in_one_pre_execution", maxCalls) }()
+	harn.Check(t, scaled(40), 1200, func(t *rapid.T) {
+		code, sp := genXloopProgram(t)
+		if os.Getenv("VERIF_C12_XLOOP") == "observable" && !sp.Observe { // developer switch: only the shapes judged on the real PreExecuteContract
+			t.Skip("developer filter")
+		}
+		c := wcase{Kind: "xloop", Code: code, Observe: sp.Observe, GasLimit: uint64(pick(t, []int{20000, 20000, 100000, 500000}, "xgl")),
+			GasPrice: uint64(pick(t, []int{0, 2500}, "xgp")), Signers: []int{1}}
+		v := r.exec(c)
+		viol, _ := r.judge(v)
+		lr := v.rep.Loop
+		if lr == nil {
+			lr = &loopRes{}
+		}
+		desc := fmt.Sprintf("xloop %+v gl=%d gp=%d code=%x", sp, c.GasLimit, c.GasPrice, clip(code, 160))
+		ev.Case(sp.Calls > 0 && (v.rep.Block.Ran || v.died), desc)
+		ev.Class("xloop:cases")
+		ev.Class("xloop:form:" + sp.Form)
+		for _, el := range sp.Body {
+			ev.Class("xloop:body:" + el)
+		}
+		if sp.MustSpin && sp.Calls > 0 {
+			ev.Class("xloop:forever:with-call")
+		}
+		if sp.Observe {
+			ev.Class("xloop:observable-by-probe")
+		}
+		pre, route := &v.rep.Pre, "real-route"
+		if !sp.Observe {
+			pre, route = &v.rep.PreSB, "finite-gas"
+		}
+		stepLimit := strings.Contains(pre.Err, "exceeded the step limit")
+		switch {
+		case v.timedOut:
+			ev.Class("timeout")
+		case v.died:
+			ev.Class("xloop:died")
+		default:
+			if lr.PreCalls > maxCalls {
+				maxCalls = lr.PreCalls
+			}
+			if lr.SBCalls > maxCalls {
+				maxCalls = lr.SBCalls
+			}
+			ev.Class("xloop:block:" + shortOutcome(&v.rep.Block))
+			if v.rep.Block.Ran && v.rep.Block.State != 1 && sp.MustSpin {
+				ev.Class("xloop:block:out-of-gas")
+			}
+			switch {
+			case !pre.Ran:
+				ev.Class("xloop:pre:" + route + ":not-run")
+			case stepLimit:
+				ev.Class("xloop:pre:" + route + ":step-limit")
+			case pre.State == 1:
+				ev.Class("xloop:pre:" + route + ":success")
+			default:
+				ev.Class("xloop:pre:" + route + ":" + errClass(clipStr(pre.Err, 60)))
+			}
+			ev.Class("xloop:pre-service-calls:" + bucket(lr.PreCalls+lr.SBCalls, 0, 100, 10000, 100000, 400000))
+		}
+		if viol == "" && !v.timedOut && !v.died && v.rep.Loop != nil && pre.Ran {
+			switch {
+			case strings.Contains(pre.Err, "insufficient gas"):
+				viol = fmt.Sprintf("pre-execution with a finite gas budget of %d (SmartContract built as PreExecuteContract builds it, PreExec=true) ran out of GAS after %d gas; VM_STEP_LIMIT=400000 steps cost at most 4,000,000 gas with the opcodes of this program (APPCALL = 10), so the step limit did not stop the request: the real PreExecuteContract (gas ~ MaxUint64) never returns. Step counter at the end: %d",
+					lr.SBBudget, lr.SBGas, lr.SBSteps)
+			case sp.MustSpin && !stepLimit:
+				viol = fmt.Sprintf("an endless loop (every callee exists and returns) must end its pre-execution with the step-limit error, got state %d err %q (%s)", pre.State, pre.Err, route)
+			case sp.MustSpin && v.rep.Block.Ran && v.rep.Block.State == 1:
+				viol = "an endless loop ended its transaction successfully"
+			}
+		}
+		if viol != "" {
+			t.Fatalf("C12 violated by cross-contract loop program %x (shape %+v, gas limit %d, gas price %d): %s", code, sp, c.GasLimit, c.GasPrice, viol)
 		}
 	})
 }
